@@ -18,19 +18,19 @@ theorem SideId.peer_peer (x : SideId) : x.peer.peer = x := by cases x <;> rfl
 theorem SideId.peer_ne (x : SideId) : x.peer ≠ x := by cases x <;> simp [SideId.peer]
 theorem SideId.port_ne (x : SideId) : x.peer.port ≠ x.port := by cases x <;> decide
 
-theorem side_setSide_same (s : Sys) (x : SideId) (v : Side) : (s.setSide x v).side x = v := by
+private theorem side_setSide_same (s : Sys) (x : SideId) (v : Side) : (s.setSide x v).side x = v := by
   cases x <;> rfl
 theorem side_setSide_peer (s : Sys) (x : SideId) (v : Side) : (s.setSide x v).side x.peer = s.side x.peer := by
   cases x <;> rfl
 theorem history_setSide (s : Sys) (x : SideId) (v : Side) : (s.setSide x v).history = s.history := by
   cases x <;> rfl
-theorem side_record (s : Sys) (segs : List Segment) (y : SideId) : (s.record segs).side y = s.side y := by
+private theorem side_record (s : Sys) (segs : List Segment) (y : SideId) : (s.record segs).side y = s.side y := by
   cases y <;> rfl
 theorem mem_history_record (s : Sys) (segs : List Segment) (σ : Segment) :
     σ ∈ (s.record segs).history ↔ σ ∈ segs ∨ σ ∈ s.history := by
   unfold Sys.record; simp
 
-theorem nth_mem (s : Sys) (i : Nat) (σ : Segment) (h : s.nth i = some σ) : σ ∈ s.history := by
+private theorem nth_mem (s : Sys) (i : Nat) (σ : Segment) (h : s.nth i = some σ) : σ ∈ s.history := by
   unfold Sys.nth at h
   split at h
   · exact List.mem_of_getElem? h
